@@ -498,7 +498,7 @@ Section T.
   (** the pruned node and its twin answer an AddBlocks identically, and stay twins *)
   Lemma add_blocks_twin m m' batch :
     MInv U m → MInv U m' → twin m m' →
-    (∀ x, x ∈ reorg_reverts U m' batch → has_body m' x = has_body m x) →
+    (∀ x, x ∈ reorg_reverts U m' batch → x ∈ best m → has_body m' x = has_body m x) →
     ∃ r r' out nt, add_blocks U m batch = (r, out, nt) ∧
                    add_blocks U m' batch = (r', out, nt) ∧ twin r r'.
   Proof.
@@ -520,10 +520,11 @@ Section T.
     destruct (heavier U cs (tip m1)) eqn:Hh; [|by exists m1, m1', Ok, false].
     rewrite (twin_rpath m1 m1' _ _ Ht1) in Hrev.
     destruct (reorg_to_sim m1 m1' cs HI1 HI1' Ht1) as (m2 & m2' & out & E & E' & Hb2 & Htw & Hok).
-    { intros rv app Erp x Hx. rewrite Erp in Hrev. specialize (Hrev x Hx).
+    { intros rv app Erp x Hx. rewrite Erp in Hrev.
       destruct (rpath_sound U HWF _ _ _ _ _ _ Erp) as (c & Hr & Hlr & _).
       destruct (chain_split U HWF (best m1) rv c (I_chain U m1 HI1) Hr Hlr) as (rest & Hbm).
       assert (x ∈ best m1) as Hx1 by (rewrite Hbm; apply elem_of_app; auto).
+      specialize (Hrev x Hx). rewrite <- Hb1 in Hrev. specialize (Hrev Hx1).
       destruct (Hk1 x) as [?|(_ & k & Hkx & Hkx')]; [done|].
       assert (known m1 !! x = known m !! x) as Hsame.
       { assert (x ∈ best m) as Hxm by (by rewrite <- Hb1).
@@ -547,4 +548,211 @@ Section T.
       pose proof (rollback_exact U HWF m1' m2' HI1' HI2' Hmid') as R'. rewrite Htip1 in R'. rewrite R'.
       eexists _, _, Err, false. split_and!; try done.
   Qed.
+
+  (** *** instantiated for [prune] *)
+  Lemma twin'_trans L m1 m2 m3 : twin' L m1 m2 → twin' L m2 m3 → twin' L m1 m3.
+  Proof.
+    intros H12 H23 x.
+    destruct (H12 x) as [E1|(Hin & k & Hk & E1)], (H23 x) as [E2|(Hin2 & k2 & Hk2 & E2)].
+    - left. congruence.
+    - right. split; [done|]. exists k2. split; congruence.
+    - right. split; [done|]. exists k. split; congruence.
+    - right. split; [done|]. exists k. split; [done|]. rewrite E2. rewrite E1 in Hk2.
+      injection Hk2 as <-. done.
+  Qed.
+
+  Lemma prune_from_twin n : ∀ m, MInv U m → twin' (best m) m (prune_from m n).
+  Proof.
+    induction n as [|n IH]; intros m HI; cbn [prune_from]; [by left|].
+    destruct (best_at m (N.of_nat n)) as [b|] eqn:Hb; [|by left].
+    destruct (has_body m b) eqn:Hbo; [|by left].
+    assert (b ∈ best m) as Hin by (eapply best_at_elem; eauto).
+    eapply twin'_trans; [|rewrite <- (prune_block_best m b); apply IH, MInv_prune_block; done].
+    intros x. rewrite prune_block_lookup. destruct (decide (x = b)) as [->|]; [|by left].
+    right. split; [done|]. destruct (I_best U m HI b Hin) as (k & Hk & _).
+    exists k. by rewrite Hk.
+  Qed.
+
+  Lemma prune_twin m h : MInv U m → twin m (prune m h).
+  Proof. intros HI. split; [apply prune_from_best|by apply prune_from_twin]. Qed.
+
+  (** every later AddBlocks whose reorg reverts only blocks at or above the prune height *)
+  Lemma twin_equivalence_height m h batch :
+    MInv U m →
+    (∀ x, x ∈ reorg_reverts U (prune m h) batch → h ≤ ht U x) →
+    ∃ r r' out nt, add_blocks U m batch = (r, out, nt) ∧
+                   add_blocks U (prune m h) batch = (r', out, nt) ∧
+                   twin r r'.
+  Proof.
+    intros HI Hrev. apply add_blocks_twin; try done.
+    - by apply MInv_prune_from.
+    - by apply prune_twin.
+    - intros x Hx _. specialize (Hrev x Hx).
+      destruct (prune_removes_only_bodies U HWF m h HI) as [_ Hk]. destruct (Hk x) as [_ Hsame].
+      unfold has_body. rewrite Hsame; [done|]. intros Hp.
+      destruct (pruned_by_ht U HWF m h x HI Hp). lia.
+  Qed.
+
+  (** ... or only blocks strictly above the pruned node's MinReorgIndex (i.e. the fork
+      point is at or above it) *)
+  Lemma above_min_reorg_unpruned m h x :
+    MInv U m → x ∈ best m → ht U (min_reorg (prune m h)) < ht U x →
+    has_body (prune m h) x = has_body m x.
+  Proof.
+    intros HI Hx Hlt. set (m' := prune m h) in *.
+    assert (MInv U m') as HI' by (by apply MInv_prune_from).
+    assert (best m' = best m) as Hb by apply prune_from_best.
+    assert (∀ y, has_body m' y = true → has_body m y = true) as Hmono.
+    { intros y Hy. destruct (has_body m y) eqn:E; [done|].
+      unfold m', prune in Hy. by rewrite (prune_from_body_mono _ _ _ E) in Hy. }
+    pose proof (I_chain U m' HI') as Hc.
+    destruct (best m') as [|t l] eqn:Hbm; [by apply chain_nonempty in Hc|].
+    destruct (min_reorg_spec m' t l Hbm) as (mid & rest & Hbm2 & Hmr & Hmid & _).
+    rewrite Hbm in Hbm2. injection Hbm2 as ->.
+    rewrite <- Hb in Hx.
+    apply elem_of_cons in Hx as [->|[Hx|Hx]%elem_of_app].
+    - (* the tip *)
+      destruct (prune_removes_only_bodies U HWF m h HI) as [_ Hk].
+      destruct (Hk t) as [_ Hsame]. fold m' in Hsame.
+      unfold has_body. rewrite Hsame; [done|]. intros (i & Hi & Hti & Hall).
+      destruct mid as [|y mid']; [cbn in Hmr; rewrite Hmr in Hlt; lia|].
+      assert (has_body m' y = true) as Hy' by (apply Hmid, elem_of_cons; auto).
+      pose proof (Hmono y Hy') as Hy.
+      destruct (chain_tail U _ _ Hc) as (_ & Htg & HtU & Hpar); [done|]. cbn [hd app] in Hpar.
+      destruct (ht_par U HWF t Htg HtU) as [Hht _]. rewrite Hpar in Hht.
+      assert (y ∈ best m) as Hyin by (rewrite <- Hb; apply elem_of_cons; right; apply elem_of_cons; auto).
+      pose proof (best_at_complete U HWF m y HI Hyin) as Hyat.
+      pose proof (best_at_ht U HWF m i t HI Hti) as Hti'.
+      assert (pruned_by m h y) as Hpy.
+      { exists (ht U y). split; [lia|]. split; [done|]. intros j Hj.
+        destruct (decide (j = ht U y)) as [->|Hne]; [eauto|]. apply Hall. lia. }
+      destruct (Hk y) as [Hpr _]. destruct (Hpr Hpy) as (k & _ & Hk'). fold m' in Hk'.
+      unfold has_body in Hy'. by rewrite Hk' in Hy'.
+    - (* between the tip and MinReorgIndex: body present on both *)
+      rewrite (Hmid x Hx). symmetry. by apply Hmono, Hmid.
+    - (* below MinReorgIndex: contradicts the height hypothesis *)
+      exfalso. rewrite Hmr in Hlt.
+      assert (∃ pre, t :: mid = pre ++ [List.last mid t]) as [pre Hpre].
+      { destruct (exists_last (l:=t :: mid)) as (pre & z & Hz); [done|]. exists pre.
+        rewrite Hz. f_equal. f_equal.
+        assert (List.last (t :: mid) t = z) as <- by (rewrite Hz; apply last_last).
+        apply last_cons. }
+      change (t :: mid ++ rest) with ((t :: mid) ++ rest) in Hc. rewrite Hpre, <- app_assoc in Hc.
+      cbn [app] in Hc. destruct (chain_split_at U _ _ _ Hc) as [_ Hc2].
+      destruct rest as [|z rest]; [by apply elem_of_nil in Hx|].
+      destruct (chain_tail U _ _ Hc2) as (Hc3 & Hg & HU & Hpar); [done|]. cbn [hd] in Hpar.
+      destruct (ht_par U HWF _ Hg HU) as [Hht _]. rewrite Hpar in Hht.
+      pose proof (chain_ht_le _ _ Hc3 Hx) as Hle. cbn [hd] in Hle. lia.
+  Qed.
+
+  Lemma twin_equivalence_min_reorg m h batch :
+    MInv U m →
+    (∀ x, x ∈ reorg_reverts U (prune m h) batch →
+          ht U (min_reorg (prune m h)) < ht U x) →
+    ∃ r r' out nt, add_blocks U m batch = (r, out, nt) ∧
+                   add_blocks U (prune m h) batch = (r', out, nt) ∧
+                   twin r r'.
+  Proof.
+    intros HI Hrev. apply add_blocks_twin; try done.
+    - by apply MInv_prune_from.
+    - by apply prune_twin.
+    - intros x Hx Hin. apply above_min_reorg_unpruned; auto.
+  Qed.
 End T.
+
+Lemma prune_preserves_inv U m h : MInv U m → MInv U (prune m h).
+Proof. apply MInv_prune_from. Qed.
+
+(** PruneBlocks(h) with h above tip height + 1 removes nothing at all: the loop starts
+    at BestIndex(h-1), which does not exist, and stops *)
+Lemma prune_beyond_tip_noop m h : N.of_nat (length (best m)) < h → prune m h = m.
+Proof.
+  intros Hh. unfold prune. destruct (N.to_nat h) as [|n] eqn:E; [done|]. cbn [prune_from].
+  unfold best_at. destruct (N.ltb_spec (N.of_nat n) (N.of_nat (length (best m)))); [lia|done].
+Qed.
+
+(** * Examples (non-vacuity) and the boundary case *)
+Module ExP.
+  Import Ex.
+  Definition m1 : mgr := mrun U ops1.          (* best = [3;2;1;0], nothing pruned *)
+  Definition m2 : mgr := mrun U ops2.          (* same chain; fork 4,5 validated, 6 stored *)
+
+  Example m1_inv : MInv U m1.
+  Proof. apply best_chain_inv; [apply U_wf|repeat constructor]. Qed.
+  Example m2_inv : MInv U m2.
+  Proof. apply best_chain_inv; [apply U_wf|repeat constructor]. Qed.
+
+  (** prune 2 removes exactly the bodies of heights 1 and 0 *)
+  Example pruned_by_ex : pruned_by m1 2 1 ∧ ¬ pruned_by m1 2 2.
+  Proof.
+    split.
+    - exists 1. split; [lia|]. split; [vm_compute; reflexivity|].
+      intros j Hj. assert (j = 1) as -> by lia. eexists. split; vm_compute; reflexivity.
+    - intros Hp. destruct (pruned_by_ht U U_wf m1 2 2 m1_inv Hp) as [_ Hh].
+      vm_compute in Hh. discriminate.
+  Qed.
+  Example prune_ex :
+    known (prune m1 2) !! 1 = Some (KI (Some SFull) false false) ∧
+    known (prune m1 2) !! 0 = Some (KI (Some SFull) false false) ∧
+    known (prune m1 2) !! 2 = Some (KI (Some SFull) true true) ∧
+    min_reorg (prune m1 2) = 2.
+  Proof. vm_compute. split_and!; reflexivity. Qed.
+  Example prune_beyond_tip_ex : prune m1 5 = m1 ∧ has_body (prune m1 4) 3 = false.
+  Proof. vm_compute. split; reflexivity. Qed.
+
+  (** a reorg below the boundary: the fork 4-5-7 needs block 2 reverted, whose body is gone *)
+  Example below_boundary_ex :
+    let m := prune m2 3 in
+    2 ∈ reorg_reverts U m [7] ∧ has_body m 2 = false ∧
+    ∃ m', add_blocks U m [7] = (m', Err, false) ∧ best m' = [3; 2; 1; 0].
+  Proof.
+    cbn zeta. split; [|split].
+    - replace (reorg_reverts U (prune m2 3) [7]) with [3; 2] by (vm_compute; reflexivity).
+      apply elem_of_cons; right; apply elem_of_cons; auto.
+    - vm_compute. reflexivity.
+    - eexists. vm_compute. split; reflexivity.
+  Qed.
+
+  (** twin equivalence, hypotheses met: the same fork with the boundary at height 2 / 1 *)
+  Example twin_height_ex :
+    (∀ x, x ∈ reorg_reverts U (prune m2 2) [7] → 2 ≤ ht U x) ∧
+    ∃ r r', add_blocks U m2 [7] = (r, Ok, true) ∧ add_blocks U (prune m2 2) [7] = (r', Ok, true) ∧
+            best r = [7; 5; 4; 1; 0] ∧ best r' = [7; 5; 4; 1; 0].
+  Proof.
+    split.
+    - replace (reorg_reverts U (prune m2 2) [7]) with [3; 2] by (vm_compute; reflexivity).
+      intros x [->|[->|Hx%elem_of_nil]%elem_of_cons]%elem_of_cons; [| |done]; vm_compute; discriminate.
+    - eexists _, _. vm_compute. split_and!; reflexivity.
+  Qed.
+  Example twin_min_reorg_ex :
+    ∀ x, x ∈ reorg_reverts U (prune m2 1) [7] → ht U (min_reorg (prune m2 1)) < ht U x.
+  Proof.
+    replace (reorg_reverts U (prune m2 1) [7]) with [3; 2] by (vm_compute; reflexivity).
+    intros x [->|[->|Hx%elem_of_nil]%elem_of_cons]%elem_of_cons; [| |done]; vm_compute; reflexivity.
+  Qed.
+
+  (** "reverts only blocks at or above MinReorgIndex" (instead of strictly above) is not
+      enough: after pruning up to and including the tip, MinReorgIndex is the tip itself,
+      whose body is gone.  The unpruned node reorgs to block 10, the pruned one errors. *)
+  Lemma twin_at_boundary_refuted :
+    ∃ U m h batch, WF U ∧ MInv U m ∧
+      (∀ x, x ∈ reorg_reverts U (prune m h) batch →
+            ht U (min_reorg (prune m h)) ≤ ht U x) ∧
+      (add_blocks U m batch).1.2 = Ok ∧ (add_blocks U (prune m h) batch).1.2 = Err.
+  Proof.
+    exists U, m1, 4, [10]. split; [apply U_wf|]. split; [apply m1_inv|]. split.
+    - replace (reorg_reverts U (prune m1 4) [10]) with [3] by (vm_compute; reflexivity).
+      intros x [->|Hx%elem_of_nil]%elem_of_cons; [|done]. vm_compute. discriminate.
+    - vm_compute. split; reflexivity.
+  Qed.
+
+  (** Observation (not covered by [C19_twin_equivalence], which is about a node right
+      after a prune): when the tip itself is pruned and AddValidatedV2Blocks later
+      re-stores the body of a lower best-chain block, MinReorgIndex moves below the
+      tip again although the tip still cannot be reverted. *)
+  Example min_reorg_overclaims_after_restore :
+    let m := mrun U [AddBlocks [1; 2; 3]; Prune 4; AddValidated [2]] in
+    min_reorg m = 2 ∧ has_body m 3 = false ∧
+    reorg_reverts U m [10] = [3] ∧ (add_blocks U m [10]).1.2 = Err.
+  Proof. vm_compute. split_and!; reflexivity. Qed.
+End ExP.
